@@ -26,7 +26,7 @@ open Goyang.Model Goyang.Spec.Positions Goyang.Spec.Tree Goyang.Lemmas.Tree
 
 variable {K : String → Stmt → Prop}
 
-/-- What the class / statement relation `K` must admit: the error sites of the resolver itself,
+/-- What the class / statement relation `K` must allow: the error sites of the resolver itself,
 each with what is known of the statement at that place. -/
 structure Sites (reg : Registry) (K : String → Stmt → Prop) : Prop where
   dupKey : ∀ n c kw, c ∈ n.all kw → kw ∈ keyKws → kw ∈ fieldOrder n.kw → K "duplicate-key" n
@@ -1502,12 +1502,12 @@ theorem processAll_errors_ok {reg : Registry} (hK : Sites reg K) {plug : Plug} (
       · exact forestErrs_ok (pinv_preDev hK hp opts hanf).trees x hx
       · exact devStage_errs hK opts plug _ x hx
 
-/-! ### the relation of the specification is admitted by the sites -/
+/-! ### the relation of the specification is allowed by the sites -/
 
 theorem mem_all_sub {n c : Stmt} {kw : String} (h : c ∈ n.all kw) : c ∈ n.subs ∧ c.kw = kw :=
   ⟨(List.mem_filter.mp h).1, mem_all_kw n kw c h⟩
 
-/-- The sites of the resolver admit `NamesW reg`: what `Names` says (entry layer classes) and what
+/-- The sites of the resolver allow `NamesW reg`: what `Names` says (entry layer classes) and what
 `Who reg` says (duplicate keys and nodes, augment targets, deviations). -/
 theorem sites_namesW (reg : Registry) : Sites reg (NamesW reg) := by
   have hN := PositionsSem.sites_names
